@@ -9,6 +9,15 @@ use std::collections::BTreeMap;
 use std::sync::atomic::Ordering;
 use std::time::Duration;
 
+/// u64::MAX nanoseconds stands for a "never expire" timeout written as Duration::MAX (it does not fit u64 nanoseconds).
+fn to_timeout(ns: u64) -> Duration {
+    if ns == u64::MAX {
+        Duration::MAX
+    } else {
+        Duration::from_nanos(ns)
+    }
+}
+
 pub fn run(a: &Args) -> Option<Report> {
     match a.leg.as_str() {
         "registry" => Some(run_registry(a)),
@@ -48,8 +57,8 @@ fn run_registry(a: &Args) -> Report {
         let (clock, mock) = quanta::Clock::mock();
         mock.increment(Duration::from_secs(1000));
         let bits = r.below(8) as u8;
-        let timeout_ns: Option<u64> = if r.chance(1, 8) { None } else { Some(*r.pick(&[1u64, 10, 1000, 1_000_000_000])) };
-        let recency: Recency<Key> = Recency::new(clock.clone(), mask_of(bits), timeout_ns.map(Duration::from_nanos));
+        let timeout_ns: Option<u64> = if r.chance(1, 8) { None } else { Some(*r.pick(&[1u64, 10, 1000, 1_000_000_000, u64::MAX / 2, u64::MAX])) };
+        let recency: Recency<Key> = Recency::new(clock.clone(), mask_of(bits), timeout_ns.map(to_timeout));
         let reg: Registry<Key, GenerationalAtomicStorage> = Registry::new(GenerationalAtomicStorage::atomic());
         let nkeys = 1 + r.usize(3);
         let keys: Vec<Key> = (0..nkeys).map(|i| Key::from_parts(format!("k{}", i), vec![Label::new("l", "v")])).collect();
@@ -93,7 +102,7 @@ fn run_registry(a: &Args) -> Report {
                     trace.push(format!("t={} update kind{} key{}", now, kind, ki));
                 }
                 4..=6 => {
-                    let t = timeout_ns.unwrap_or(1000);
+                    let t = timeout_ns.unwrap_or(1000).min(3_000_000_000);
                     let adv = match r.below(6) {
                         0 => 0,
                         1 => t,
@@ -203,8 +212,8 @@ fn run_exporter(a: &Args) -> Report {
         let (clock, mock) = quanta::Clock::mock();
         mock.increment(Duration::from_secs(1000));
         let bits = r.below(8) as u8;
-        let timeout_ns: Option<u64> = if r.chance(1, 8) { None } else { Some(*r.pick(&[10u64, 1000, 1_000_000_000])) };
-        let mut b = PrometheusBuilder::new().idle_timeout(mask_of(bits), timeout_ns.map(Duration::from_nanos));
+        let timeout_ns: Option<u64> = if r.chance(1, 8) { None } else { Some(*r.pick(&[10u64, 1000, 1_000_000_000, u64::MAX / 2, u64::MAX])) };
+        let mut b = PrometheusBuilder::new().idle_timeout(mask_of(bits), timeout_ns.map(to_timeout));
         if r.chance(1, 2) {
             b = b.add_global_label("env", "prod");
         }
@@ -254,7 +263,7 @@ fn run_exporter(a: &Args) -> Report {
                     trace.push(format!("t={} update {}", now, name));
                 }
                 4..=6 => {
-                    let t = timeout_ns.unwrap_or(1000);
+                    let t = timeout_ns.unwrap_or(1000).min(3_000_000_000);
                     let adv = *r.pick(&[0, t, t + 1, t.saturating_sub(1), 2 * t + 3]);
                     mock.increment(Duration::from_nanos(adv));
                     now += adv;
